@@ -1050,6 +1050,7 @@ structure PoolInv (s0 s : Sys) (q : List Msg) : Prop where
   shape : (∃ pre, q = pre ++ [dMsg] ∧ ∀ x ∈ pre, Pre x = true) ∨
     ((∀ x ∈ q, post x = true) ∧ brCount q ≤ 1 ∧ (0 < delSum q → brCount q = 0))
 
+set_option maxHeartbeats 2000000 in
 theorem PoolInv.step (s0 s s' : Sys) (m : Msg) (rest subs : List Msg)
     (hk : s0.disp.keeper ≠ dispA) (hrate : s0.disp.keeperRate ≤ D) (hden : s0.disp.stDenom ≠ s0.disp.bDenom)
     (hns : s0.hub.bBond + s0.hub.sBond ≤ totalDelegated s0)
